@@ -141,9 +141,11 @@ def r5(R5, cfg, F):
             R5.check(ok, cfg, b.path, 'listing-created-only-if-absent',
                      'a directory listing is inserted without checking that none exists for that id: the entries already registered for that directory are lost '
                      '(archives may list a directory after its content)', c.loc())
-    if n == 0:
-        R5.note(cfg, plain_inserts=0)
-        R5.ok(cfg, 'source::(zip|tar)', 'no-plain-insert-on-dirs', None)
+    if n < 2:
+        # (fewer plain inserts than on the reference tree: the listings are created through entry().or_default() instead)
+        R5.note(cfg, plain_inserts=n)
+        for _ in range(2 - n):
+            R5.ok(cfg, 'source::(zip|tar)', 'no-plain-insert-on-dirs:%d' % _, None)
 
 
 def r1(R1, cfg, F):
